@@ -32,16 +32,32 @@
     * `C19_truncation`     no strict prefix of the (token-level) printed document is a JSON value;
     * `fresh` only for a value that structures into a document passing the conjunction
       (`C19_fresh_sound`); NOT only for documents of the declared shape (`C19_cex_trusted_wrong_shape`).
+  Dependencies and options, modelled from the code (RattrModel/CacheDeps.lean; second half of this file):
+    * `argsKey_eq_iff`     two option sets get the same arguments hash iff follow level and both pattern
+                           SETS are equal — letter case, white space, a different regex for the same
+                           language are all changes (`C19_option_change_is_a_miss`), order and repetition
+                           are not, and the analysis cannot tell them apart either (`blacklisted_canon`);
+    * `deps_covers`        every file the import follower (`Imports.bfs`, C12's model) reads is the target
+                           or an origin `make_cacheable_import_info` records — for every module graph,
+                           follow level 0..3, module class (local / site-packages / stdlib) and exclusion;
+    * `deps_recorded_frame` the recorded origins depend only on the files read;
+    * `C19G_*`             history invariant / hit soundness / `C19G_partial` for histories that may edit
+                           ANY file; `exec_eq_execG`: the machine above is the instance with two local modules;
+    * `C19_deps_partial`   all of it put together: only `FreshFrame` (results depend on nothing but the files
+                           the follower reads) is still assumed.
   The full statement `C19_full` is still FALSE (`C19_full_false`, from the wrongly trusted document;
   `C19_cex_threshold` is the second class); each `C19_cex_*` is replayed on the implementation.
 -/
 import RattrModel.Cache
+import RattrModel.CacheDeps
 import RattrModel.Generated.C19
+import RattrModel.Generated.C12
+import RattrProofs.Lemmas.C19Deps
 
 set_option linter.unusedSectionVars false
 
 namespace Rattr.C19
-open Rattr Rattr.Cache
+open Rattr Rattr.Cache Rattr.CacheDeps
 
 /-! ### Tie A -/
 
@@ -80,6 +96,40 @@ theorem tieA_main_shape : Generated.C19.mainShape =
     ["if:cache_file is not None", "if:force_refresh_cache", "call:unlink",
      "elif:target_cache_file_is_up_to_date", "return:EXIT_SUCCESS", "call:write_cache_file"] := by
   decide
+
+/-- `make_cacheable_import_info`: contexts of the target and of every analysed module; the filter
+chain of the comprehension is exactly `CacheDeps.recordsSym`'s (no clause looks at the follow level
+or at the module's class). -/
+theorem tieA_import_info_shape :
+    Generated.C19.importInfoShape = CacheDeps.importInfoShape := rfl
+
+/-- The hashed tuple is built from the expressions `CacheDeps.argsKey` models … -/
+theorem tieA_hashed_sources_model :
+    Generated.C19.hashedArgumentSources = CacheDeps.argsKeySources ∧
+    Generated.C19.hashedArguments = CacheDeps.argsKeyFields := by decide
+
+/-- … where `excluded_imports` / `excluded_names` are `set`s of the strings as given, and the
+blacklist consulted by the analysis is built from the same set. -/
+theorem tieA_option_sets : Generated.C19.optionSetSources = CacheDeps.optionSetSources := rfl
+
+theorem tieA_blacklist_shape :
+    Generated.C19.blacklistShape = CacheDeps.blacklistShape ∧
+    Generated.C19.inPipShape = CacheDeps.inPipShape ∧
+    Generated.C19.namesRightShape = CacheDeps.namesRightShape ∧
+    Generated.C19.safeOriginShape = CacheDeps.safeOriginShape ∧
+    Generated.C19.pipPatterns = CacheDeps.pipPatterns := ⟨rfl, rfl, rfl, rfl, rfl⟩
+
+/-- The import follower the dependency theorems are about (`Imports.classify` / `loop`, C12's model)
+is the ladder of `parse_and_analyse_imports` as it is now. -/
+theorem tieA_follower_ladder :
+    Generated.C12.bfsLadder =
+      ["pop:left", "noName->continue", "noSpec->continue", "noOrigin->continue", "seen->continue",
+       "blacklist->continue", "is_in_pip:not:follow_pip_imports->continue",
+       "is_in_stdlib:not:follow_stdlib_imports->continue", "read", "analyse", "store:name",
+       "enqueue:append", "markSeen:origin"] ∧
+    Generated.C12.followLevels =
+      [(false, false, false, false), (true, true, false, false), (true, true, true, false),
+       (true, true, true, true)] := by decide
 
 /-- With the generated `except` clause every exception of `read_text` / `deserialise` is caught.
 (Re-checked against the source on every run through `tieA_caught_exceptions`.) -/
@@ -1184,5 +1234,535 @@ theorem C19_partial (F : Frame D A) (s0 : State P H O X R) (ops : List (Op H O X
   · rw [hs]
 
 end partialFull
+
+/-! ## Dependencies and options computed by the model (RattrModel/CacheDeps.lean) -/
+
+section generalMachine
+variable {P H O X R : Type} [DecidableEq P] [DecidableEq H] [DecidableEq O]
+variable (D : Dir P H) (A : Analysis P H O X R)
+
+/-- `Cache.step` is `stepG` on the translated op. -/
+theorem step_eq_stepG (L : Layout P) (s : State P H O X R) (o : Op H O X) :
+    step D A L s o = stepG D A s (toG L s.world.target o) := by
+  cases o <;> rfl
+
+/-- **The two-local-modules machine of the earlier theorems is an instance of the general one.** -/
+theorem exec_eq_execG (L : Layout P) (ops : List (Op H O X)) :
+    ∀ s : State P H O X R,
+      exec D A L s ops = execG D A s (ops.map (toG L s.world.target)) ∧
+      outs D A L s ops = outsG D A s (ops.map (toG L s.world.target)) := by
+  induction ops with
+  | nil => intro s; exact ⟨rfl, rfl⟩
+  | cons o os ih =>
+    intro s
+    simp only [exec, outs, List.map_cons, execG, outsG]
+    rw [← step_eq_stepG]
+    have ht := step_target D A L s o
+    obtain ⟨h1, h2⟩ := ih (step D A L s o).1
+    rw [ht] at h1 h2
+    exact ⟨h1, by rw [h2]⟩
+
+/-- The frame hypothesis restricted to worlds in which the run completes (only such worlds ever
+write a cache). Weaker than `Frame`. -/
+structure FrameOK : Prop where
+  frame : ∀ w w' : World P H O X, A.fails w = false →
+    w'.target = w.target → w'.opts = w.opts → w'.version = w.version → w'.plugins = w.plugins →
+    (∀ p ∈ A.readSet w, D.isFile p = true → w'.contents p = w.contents p) →
+    A.fresh w' = A.fresh w ∧ A.recorded w' = A.recorded w
+  covers : ∀ w : World P H O X, A.fails w = false →
+    ∀ p ∈ A.readSet w, p = w.target ∨ p ∈ A.recorded w
+
+theorem frameOK_of_frame (F : Frame D A) : FrameOK D A :=
+  ⟨fun w w' _ => F.frame w w', fun w _ => F.covers w⟩
+
+theorem make_eq_of_unchanged_ok (F : FrameOK D A) (wk w : World P H O X)
+    (hk : A.fails wk = false) (hu : Unchanged D A wk w) :
+    make D A w = make D A wk := by
+  obtain ⟨h1, h2, h3, h4, h5, h6⟩ := hu
+  have hagree : ∀ p ∈ A.readSet wk, D.isFile p = true → w.contents p = wk.contents p := by
+    intro p hp hf
+    rcases F.covers wk hk p hp with rfl | hr
+    · have := h5
+      unfold hashFile at this
+      rw [← h4] at this
+      simp only [hf, if_true] at this
+      exact this.symm
+    · have := h6 p hr
+      unfold hashFile at this
+      simp only [hf, if_true] at this
+      exact this.symm
+  obtain ⟨hfresh, hrec⟩ := F.frame wk w hk h4.symm h2.symm h1.symm h3.symm hagree
+  unfold make
+  rw [hfresh, hrec, ← h1, ← h2, ← h3, ← h4]
+  rw [← h4] at h5
+  rw [← h5]
+  congr 1
+  apply List.map_congr_left
+  intro p hp
+  rw [h6 p hp]
+
+theorem stepG_run_cases (s : State P H O X R) :
+    (gate D s.world s.disk = .fresh ∧ stepG D A s .runWithCache = (s, .hit)) ∨
+    (∃ e, gate D s.world s.disk = .crash e ∧ stepG D A s .runWithCache = (s, .crash e)) ∨
+    (gate D s.world s.disk = .stale ∧ A.fails s.world = true ∧
+      stepG D A s .runWithCache = (s, .missFatal)) ∨
+    (gate D s.world s.disk = .stale ∧ A.fails s.world = false ∧
+      stepG D A s .runWithCache = ({ s with disk := .valid (make D A s.world) }, .missWritten)) := by
+  cases hg : gate D s.world s.disk with
+  | fresh => left; simp [stepG, hg]
+  | crash e => right; left; exact ⟨e, rfl, by simp [stepG, hg]⟩
+  | stale =>
+    cases hf : A.fails s.world with
+    | true => right; right; left; simp [stepG, hg, analyse, hf]
+    | false => right; right; right; simp [stepG, hg, analyse, hf]
+
+theorem stepG_force_cases (s : State P H O X R) :
+    (A.fails s.world = true ∧ stepG D A s .forceRefresh = ({ s with disk := .absent }, .missFatal)) ∨
+    (A.fails s.world = false ∧
+      stepG D A s .forceRefresh = ({ s with disk := .valid (make D A s.world) }, .missWritten)) := by
+  cases hf : A.fails s.world with
+  | true => left; simp [stepG, analyse, hf]
+  | false => right; simp [stepG, analyse, hf]
+
+/-- Disk invariant of the general machine: as `DiskInv`, and the world of the last write is one in
+which the run completed. -/
+def DiskInvG (allowCrash : Bool) (lw : Option (World P H O X)) (d : CacheFile P H O R) : Prop :=
+  DiskInv D A allowCrash lw d ∧ ∀ wk, lw = some wk → A.fails wk = false
+
+theorem stepG_inv (b : Bool) (lw : Option (World P H O X)) (s : State P H O X R)
+    (o : OpG P H O X) (h : DiskInvG D A b lw s.disk) :
+    DiskInvG D A b (if (stepG D A s o).2 = .missWritten then some s.world else lw)
+      (stepG D A s o).1.disk := by
+  obtain ⟨h, hk⟩ := h
+  cases o with
+  | edit p c => exact ⟨by simpa [stepG] using h, by simpa [stepG] using hk⟩
+  | setOptions o x => exact ⟨by simpa [stepG] using h, by simpa [stepG] using hk⟩
+  | runWithCache =>
+    rcases stepG_run_cases D A s with ⟨_, hs⟩ | ⟨e, _, hs⟩ | ⟨_, _, hs⟩ | ⟨_, hf, hs⟩
+    · rw [hs]; exact ⟨by simpa using h, by simpa using hk⟩
+    · rw [hs]; exact ⟨by simpa using h, by simpa using hk⟩
+    · rw [hs]; exact ⟨by simpa using h, by simpa using hk⟩
+    · rw [hs]
+      simp only [if_true]
+      refine ⟨Or.inr (Or.inr (Or.inr ⟨s.world, rfl, rfl⟩)), ?_⟩
+      intro wk hwk
+      simp only [Option.some.injEq] at hwk
+      subst hwk; exact hf
+  | forceRefresh =>
+    rcases stepG_force_cases D A s with ⟨_, hs⟩ | ⟨hf, hs⟩
+    · rw [hs]; exact ⟨Or.inl rfl, by simpa using hk⟩
+    · rw [hs]
+      simp only [if_true]
+      refine ⟨Or.inr (Or.inr (Or.inr ⟨s.world, rfl, rfl⟩)), ?_⟩
+      intro wk hwk
+      simp only [Option.some.injEq] at hwk
+      subst hwk; exact hf
+
+/-- **History invariant, any file may be edited.** -/
+theorem C19G_history (b : Bool) (ops : List (OpG P H O X)) :
+    ∀ (lw : Option (World P H O X)) (s : State P H O X R),
+      DiskInvG D A b lw s.disk →
+      DiskInvG D A b (lastWrittenG D A lw s ops) (execG D A s ops).disk := by
+  induction ops with
+  | nil => intro lw s h; exact h
+  | cons o os ih =>
+    intro lw s h
+    simp only [lastWrittenG, execG]
+    exact ih _ _ (stepG_inv D A b lw s o h)
+
+theorem diskInvG_init (s0 : State P H O X R)
+    (h0 : s0.disk = .absent ∨ s0.disk = .malformed ∨ ∃ e, s0.disk = .crashing e) :
+    DiskInvG D A true none s0.disk := by
+  refine ⟨?_, by intro wk h; cases h⟩
+  rcases h0 with h | h | h
+  · exact Or.inl h
+  · exact Or.inr (Or.inl h)
+  · exact Or.inr (Or.inr (Or.inl ⟨rfl, h⟩))
+
+/-- **Hit soundness over histories that edit any file** (target, local, site-packages, stdlib-named
+modules alike), under the weaker `FrameOK`: a hit means the file on disk is the document of the last
+cache-writing run, nothing the gate compares changed since, and a from-scratch run now would write
+exactly that document. -/
+theorem C19G_hit_sound (b : Bool) (lw : Option (World P H O X)) (s0 : State P H O X R)
+    (ops : List (OpG P H O X)) (h0 : DiskInvG D A b lw s0.disk)
+    (hit : (stepG D A (execG D A s0 ops) .runWithCache).2 = .hit) :
+    ∃ wk, lastWrittenG D A lw s0 ops = some wk ∧ A.fails wk = false ∧
+      (execG D A s0 ops).disk = .valid (make D A wk) ∧
+      Unchanged D A wk (execG D A s0 ops).world ∧
+      (FrameOK D A →
+        (execG D A s0 ops).disk = .valid (make D A (execG D A s0 ops).world) ∧
+        (make D A wk).results = A.fresh (execG D A s0 ops).world) := by
+  obtain ⟨hinv, hk⟩ := C19G_history D A b ops lw s0 h0
+  have hit' : (step D A ⟨(execG D A s0 ops).world.target, (execG D A s0 ops).world.target⟩
+      (execG D A s0 ops) .runWithCache).2 = .hit := hit
+  obtain ⟨wk, hlw, hd, hu, _⟩ := hit_unchanged D A _ b _ _ hinv hit'
+  refine ⟨wk, hlw, hk wk hlw, hd, hu, ?_⟩
+  intro F
+  have := make_eq_of_unchanged_ok D A F wk _ (hk wk hlw) hu
+  refine ⟨by rw [hd, this], ?_⟩
+  rw [← this]
+  rfl
+
+/-- What C19 demands of one run with a cache file (general machine; strictness not claimed). -/
+def RunOKG (s : State P H O X R) : Prop :=
+  match (stepG D A s .runWithCache).2 with
+  | .hit => s.disk = .valid (make D A s.world)
+  | .missWritten => (stepG D A s .runWithCache).1.disk = .valid (make D A s.world)
+  | .missFatal => A.fails s.world = true
+  | .crash _ => False
+  | .noRun => False
+
+/-- **C19, the part that holds, for histories that edit any file.** -/
+theorem C19G_partial (F : FrameOK D A) (s0 : State P H O X R) (ops : List (OpG P H O X))
+    (h0 : s0.disk = .absent ∨ s0.disk = .malformed ∨ ∃ e, s0.disk = .crashing e) :
+    RunOKG D A (execG D A s0 ops) := by
+  unfold RunOKG
+  rcases stepG_run_cases D A (execG D A s0 ops) with ⟨_, hs⟩ | ⟨e, hg, hs⟩ | ⟨_, hf, hs⟩ | ⟨_, _, hs⟩
+  · have hit : (stepG D A (execG D A s0 ops) .runWithCache).2 = .hit := by rw [hs]
+    obtain ⟨wk, _, _, _, _, hF⟩ := C19G_hit_sound D A true none s0 ops (diskInvG_init D A s0 h0) hit
+    rw [hs]
+    exact (hF F).1
+  · exact absurd hg (gate_no_crash D _ _ e)
+  · rw [hs]; exact hf
+  · rw [hs]
+
+end generalMachine
+
+section deps
+variable {ω H X R : Type} [DecidableEq ω] [DecidableEq H]
+variable (S : Static ω H) (D : Dir ω H)
+
+/-- **Coverage (`Frame.covers`, now a theorem).** Every file the import follower reads — the target
+and every analysed module — is the target or one of the origins `make_cacheable_import_info`
+records. No hypothesis on the run (it may have ended in `fatal` or a crash). -/
+theorem deps_covers (hb : BuiltinsUnreadable S = true) (w : W ω H X) :
+    ∀ p ∈ readSet S D w, p = w.target ∨ p ∈ recorded S D w := by
+  intro p hp
+  unfold readSet at hp
+  rcases List.mem_cons.mp hp with rfl | hp
+  · exact Or.inl rfl
+  · right
+    obtain ⟨n, hn, ho⟩ := List.mem_filterMap.mp hp
+    unfold run at hn
+    obtain ⟨m, o, hl, hor, hbl, _, _, hread⟩ :=
+      bfs_admitted _ _ _ _ n hn
+    obtain ⟨i, hi, hit⟩ := bfs_covered _ _ _ _ n hn
+    have hpo : p = o := by
+      unfold originOf at ho
+      rw [hl] at ho
+      simp only [Option.bind_some] at ho
+      rw [hor] at ho
+      exact (Option.some.inj ho).symm
+    subst hpo
+    have hnb : p ≠ S.builtins := by
+      intro he
+      rw [lookup_graphOf] at hl
+      cases hf : S.find n with
+      | none => rw [hf] at hl; cases hl
+      | some mi =>
+        rw [hf] at hl
+        simp only [Option.map_some, Option.some.injEq] at hl
+        subst hl
+        have hmem : mi ∈ S.mods := List.mem_of_find?_eq_some hf
+        unfold BuiltinsUnreadable at hb
+        have := List.all_eq_true.mp hb mi hmem
+        simp only [mkMod] at hor hread
+        rw [hor, he] at this
+        simp [hread] at this
+    unfold recorded
+    rw [mem_recordedOf]
+    obtain ⟨c, hc, hic⟩ := fromCtx_mem_ctxs hi
+    refine ⟨c, hc, i, hic, ?_⟩
+    unfold recordsSym
+    rw [hit]
+    simp only
+    rw [hl]
+    simp only [hbl, hor, hnb, if_false, Bool.false_eq_true]
+
+/-- **The recorded origins depend only on what the follower read (`Frame.frame`, `recorded` half, now
+a theorem).** If the import stage of a run in world `w` completes, then in every world with the same
+target path and hashed options whose files agree with `w` on the target and on every analysed module,
+the follower analyses the same modules, `make_cacheable_import_info` records the same origins and
+the same files are read. -/
+theorem deps_recorded_frame (w w' : W ω H X) (hd : (run S D w).isDone = true)
+    (ht : w'.target = w.target) (ho : w'.opts = w.opts)
+    (hc : ∀ p ∈ readSet S D w, D.isFile p = true → w'.contents p = w.contents p) :
+    run S D w' = run S D w ∧ recorded S D w' = recorded S D w ∧
+      readSet S D w' = readSet S D w := by
+  have hh : ∀ p ∈ readSet S D w, hashFile D w' p = hashFile D w p := by
+    intro p hp
+    unfold hashFile
+    by_cases hf : D.isFile p = true
+    · simp [hf, hc p hp hf]
+    · simp [hf]
+  have htsyms : symsOf S D w' w'.target = symsOf S D w w.target := by
+    rw [ht]
+    exact symsOf_congr S D ho (hh w.target (by simp [readSet]))
+  have hs := staticEq_graphOf S D (w := w) (w' := w') ho
+  have hrun := out_done_of_isDone hd
+  have hlook : ∀ n ∈ (run S D w).state.analysed,
+      Imports.lookup (graphOf S D w') n = Imports.lookup (graphOf S D w) n := by
+    intro n hn
+    rw [lookup_graphOf, lookup_graphOf]
+    cases hf : S.find n with
+    | none => rfl
+    | some mi =>
+      simp only [Option.map_some, Option.some.injEq]
+      apply mkMod_congr S D ho
+      intro o hor
+      apply hh
+      unfold readSet
+      refine List.mem_cons_of_mem _ (List.mem_filterMap.mpr ⟨n, hn, ?_⟩)
+      unfold originOf
+      rw [lookup_graphOf, hf]
+      simp [mkMod, hor]
+  have hrun' : run S D w' = run S D w := by
+    rw [hrun]
+    unfold run
+    rw [htsyms, ho]
+    apply bfs_congr hs
+    · unfold run at hrun; exact hrun
+    · exact hlook
+  refine ⟨hrun', ?_, ?_⟩
+  · unfold recorded recordedOf
+    rw [hrun', htsyms]
+    have hctx : ctxs (graphOf S D w') (symsOf S D w w.target) (run S D w).state.analysed =
+        ctxs (graphOf S D w) (symsOf S D w w.target) (run S D w).state.analysed := by
+      unfold ctxs
+      congr 1
+      apply filterMap_congr'
+      intro n hn
+      rw [hlook n hn]
+    rw [hctx]
+    have hrs : recordsSym (graphOf S D w') S.builtins = recordsSym (graphOf S D w) S.builtins := by
+      funext i; exact recordsSym_congr hs _ i
+    rw [hrs]
+  · unfold readSet
+    rw [hrun', ht]
+    congr 1
+    apply filterMap_congr'
+    intro n hn
+    unfold originOf
+    rw [hlook n hn]
+
+end deps
+
+
+/-! ### the hashed options -/
+
+/-- **`sorted(set(·))` is a canonical form of the SET of patterns.** -/
+theorem C19_canon_eq_iff (a b : List Str) : canon a = canon b ↔ ∀ x, x ∈ a ↔ x ∈ b :=
+  canon_eq_iff a b
+
+/-- **What the arguments hash distinguishes.** Two option sets get the same key (hence the same
+`arguments_hash`) iff the literal prefix, the follow level, the SET of excluded-import patterns and
+the SET of excluded-name patterns are the same. Strings are compared as given: `helpers` and
+`Helpers`, `trans` and ` trans`, `trans` and `tran[s]` are different patterns; the order and the
+number of repetitions of `-F` / `-x` do not matter. -/
+theorem argsKey_eq_iff (p p' : Str) (o o' : RawOpts) :
+    argsKey p o = argsKey p' o' ↔
+      p = p' ∧ o.follow = o'.follow ∧ (∀ s, s ∈ o.exclImports ↔ s ∈ o'.exclImports) ∧
+        (∀ s, s ∈ o.exclNames ↔ s ∈ o'.exclNames) := by
+  unfold argsKey
+  constructor
+  · intro h
+    injection h with h1 h2 h3 h4
+    exact ⟨h1, h2, (canon_eq_iff _ _).mp h3, (canon_eq_iff _ _).mp h4⟩
+  · rintro ⟨h1, h2, h3, h4⟩
+    rw [h1, h2, (canon_eq_iff _ _).mpr h3, (canon_eq_iff _ _).mpr h4]
+
+/-- A pattern added, removed or respelled (any list with a different member) changes the key. -/
+theorem argsKey_ne_of_pattern (p : Str) (o o' : RawOpts) (s : Str)
+    (h : (s ∈ o.exclImports ∧ s ∉ o'.exclImports) ∨ (s ∈ o.exclNames ∧ s ∉ o'.exclNames)) :
+    argsKey p o ≠ argsKey p o' := by
+  intro he
+  obtain ⟨_, _, h3, h4⟩ := (argsKey_eq_iff p p o o').mp he
+  rcases h with ⟨h1, h2⟩ | ⟨h1, h2⟩
+  · exact h2 ((h3 s).mp h1)
+  · exact h2 ((h4 s).mp h1)
+
+/-- [test] letter case, white space and an equivalent regex are changes of the key; order and
+repetition are not; the same text in the other field is a change. -/
+theorem C19_argsKey_examples :
+    argsKey (str "@") ⟨1, [str "helpers"], []⟩ ≠ argsKey (str "@") ⟨1, [str "Helpers"], []⟩ ∧
+    argsKey (str "@") ⟨1, [str "trans"], []⟩ ≠ argsKey (str "@") ⟨1, [str " trans"], []⟩ ∧
+    argsKey (str "@") ⟨1, [str "trans"], []⟩ ≠ argsKey (str "@") ⟨1, [str "tran[s]"], []⟩ ∧
+    argsKey (str "@") ⟨1, [str "leaf"], []⟩ ≠ argsKey (str "@") ⟨1, [], [str "leaf"]⟩ ∧
+    argsKey (str "@") ⟨1, [str "b", str "a", str "b"], []⟩ = argsKey (str "@") ⟨1, [str "a", str "b"], []⟩ ∧
+    argsKey (str "@") ⟨1, [], []⟩ ≠ argsKey (str "@") ⟨2, [], []⟩ := by decide
+
+section blacklist
+variable {ω H : Type}
+
+/-- The exclusion verdict depends only on the SET of patterns … -/
+theorem blacklisted_congr (S : Static ω H) (a b : List Str) (h : ∀ x, x ∈ a ↔ x ∈ b) (n : Str) :
+    blacklisted S a n = blacklisted S b n := by
+  unfold blacklisted
+  congr 2
+  apply List.any_congr rfl
+  intro c
+  rw [Bool.eq_iff_iff]
+  simp only [List.any_eq_true, List.mem_append]
+  constructor
+  · rintro ⟨p, hp | hp, hm⟩
+    · exact ⟨p, Or.inl ((h p).mp hp), hm⟩
+    · exact ⟨p, Or.inr hp, hm⟩
+  · rintro ⟨p, hp | hp, hm⟩
+    · exact ⟨p, Or.inl ((h p).mpr hp), hm⟩
+    · exact ⟨p, Or.inr hp, hm⟩
+
+/-- … so the analysis that reads the canonical patterns out of the key is the analysis of the
+patterns as given: whenever the key is unchanged, so is every exclusion verdict. -/
+theorem blacklisted_canon (S : Static ω H) (a : List Str) (n : Str) :
+    blacklisted S (canon a) n = blacklisted S a n :=
+  blacklisted_congr S _ _ (fun _ => mem_canon) n
+
+end blacklist
+
+section optionChange
+variable {P H X R : Type} [DecidableEq P] [DecidableEq H]
+
+/-- **A change of the hashed options is a miss.** Whatever is cached under the options `o`, a run
+under options with a different follow level, or with a pattern the other set lacks (in whatever
+letter case or spelling), re-analyses. -/
+theorem C19_option_change_is_a_miss (D : Dir P H) (A : Analysis P H ArgsKey X R)
+    (s : State P H ArgsKey X R) (d : Doc P H ArgsKey R) (p : Str) (o o' : RawOpts)
+    (hd : s.disk = .valid d) (hk : d.argumentsHash = argsKey p o) (hw : s.world.opts = argsKey p o')
+    (hne : o.follow ≠ o'.follow ∨ (∃ t, t ∈ o.exclImports ∧ t ∉ o'.exclImports) ∨
+      (∃ t, t ∈ o'.exclImports ∧ t ∉ o.exclImports) ∨ (∃ t, t ∈ o.exclNames ∧ t ∉ o'.exclNames) ∨
+      (∃ t, t ∈ o'.exclNames ∧ t ∉ o.exclNames)) :
+    (stepG D A s .runWithCache).2 = .missWritten ∨ (stepG D A s .runWithCache).2 = .missFatal := by
+  have hkey : d.argumentsHash ≠ s.world.opts := by
+    rw [hk, hw]
+    intro he
+    obtain ⟨_, h2, h3, h4⟩ := (argsKey_eq_iff p p o o').mp he
+    rcases hne with h | ⟨t, h1, h2'⟩ | ⟨t, h1, h2'⟩ | ⟨t, h1, h2'⟩ | ⟨t, h1, h2'⟩
+    · exact h h2
+    · exact h2' ((h3 t).mp h1)
+    · exact h2' ((h3 t).mpr h1)
+    · exact h2' ((h4 t).mp h1)
+    · exact h2' ((h4 t).mpr h1)
+  have hg : gate D s.world s.disk = .stale := by
+    unfold gate
+    rw [hd]
+    split
+    · have : upToDate D s.world d = false := by
+        unfold upToDate
+        simp [hkey]
+      simp [this]
+    · rfl
+  rcases stepG_run_cases D A s with ⟨h, _⟩ | ⟨e, h, _⟩ | ⟨_, _, hs⟩ | ⟨_, _, hs⟩
+  · rw [hg] at h; cases h
+  · rw [hg] at h; cases h
+  · right; rw [hs]
+  · left; rw [hs]
+
+end optionChange
+
+section depsFinal
+variable {ω H X R : Type} [DecidableEq ω] [DecidableEq H]
+variable (S : Static ω H) (D : Dir ω H)
+
+/-- What is still assumed about the un-modelled rest of the pipeline: the results depend only on the
+target path, the hashed options, the version, the plugins and the content of the files the (modelled)
+import follower reads. -/
+def FreshFrame (freshP : W ω H X → R) : Prop :=
+  ∀ w w' : W ω H X, w'.target = w.target → w'.opts = w.opts → w'.version = w.version →
+    w'.plugins = w.plugins →
+    (∀ p ∈ readSet S D w, D.isFile p = true → w'.contents p = w.contents p) →
+    freshP w' = freshP w
+
+/-- **The frame hypothesis of the modelled dependency computation**, from `FreshFrame` alone. -/
+theorem deps_frameOK (hb : BuiltinsUnreadable S = true) (freshP : W ω H X → R)
+    (failsP : W ω H X → Bool) (hF : FreshFrame S D freshP) :
+    FrameOK D (depsAnalysis S D freshP failsP) where
+  frame := by
+    intro w w' hf ht ho hv hp hc
+    have hd : (run S D w).isDone = true := by
+      simp only [depsAnalysis, Bool.or_eq_false_iff, Bool.not_eq_false'] at hf
+      exact hf.1
+    exact ⟨hF w w' ht ho hv hp hc, (deps_recorded_frame S D w w' hd ht ho hc).2.1⟩
+  covers := by
+    intro w _ p hp
+    exact deps_covers S D hb w p hp
+
+/-- **C19 for the modelled dependency computation, histories that edit any file.** With the import
+follower of C12, `make_cacheable_import_info`, `is_in_import_blacklist` / `is_in_pip` and the hashed
+option tuple modelled from the code — for every module table, every follow level, every set of
+exclusion patterns, whatever `re.fullmatch` and isort answer — and under `FreshFrame` only: starting
+from no cache (or a file that is not one), after every sequence of edits of the target and of local,
+site-packages or stdlib modules, option changes, runs and forced refreshes, a run with the cache file
+never crashes in the gate; a hit means the file on disk is exactly what a from-scratch run would write
+now; a miss leaves exactly that on disk unless the analysis is fatal. -/
+theorem C19_deps_partial (hb : BuiltinsUnreadable S = true) (freshP : W ω H X → R)
+    (failsP : W ω H X → Bool) (hF : FreshFrame S D freshP)
+    (s0 : State ω H ArgsKey X R) (ops : List (OpG ω H ArgsKey X))
+    (h0 : s0.disk = .absent ∨ s0.disk = .malformed ∨ ∃ e, s0.disk = .crashing e) :
+    RunOKG D (depsAnalysis S D freshP failsP)
+      (execG D (depsAnalysis S D freshP failsP) s0 ops) :=
+  C19G_partial D _ (deps_frameOK S D hb freshP failsP hF) s0 ops h0
+
+end depsFinal
+
+/-! ### A concrete project: one module of each class (tests by kernel evaluation; non-vacuity) -/
+namespace ExD
+
+/-- `t.py` imports a local module, a site-packages module, a stdlib module and a builtin one. -/
+def S : Static Str Nat :=
+  { mods := [⟨str "direct", some (str "/p/direct.py"), true⟩,
+             ⟨str "pipmod", some (str "/v/site-packages/pipmod.py"), true⟩,
+             ⟨str "smtpd", some (str "/s/smtpd.py"), true⟩,
+             ⟨str "sys", some (str "built-in"), false⟩]
+    originStr := id
+    reMatch := fun p t => decide (p = t)
+    isStdlib := fun n => decide (n = str "smtpd") || decide (n = str "sys")
+    permanent := [str "rattr"]
+    builtins := str "built-in"
+    importsOf := fun o _ =>
+      if o = str "t.py" then
+        [(str "direct", some (str "direct")), (str "pipmod", some (str "pipmod")),
+         (str "smtpd", some (str "smtpd")), (str "sys", some (str "sys"))]
+      else []
+    fuel := 10 }
+
+def D : Dir Str Nat := { isFile := fun p => !decide (p = str "built-in"), emptyHash := 0 }
+
+def w (lvl : Nat) (F : List Str) : W Str Nat Nat :=
+  { target := str "t.py", contents := fun _ => 1, opts := argsKey (str "@") ⟨lvl, F, []⟩, other := 0,
+    version := 1, plugins := 1 }
+
+example : BuiltinsUnreadable S = true := by decide
+
+/-- [test] which modules are analysed at each level … -/
+example :
+    (run S D (w 0 [])).state.analysed = [] ∧
+    (run S D (w 1 [])).state.analysed = [str "direct"] ∧
+    (run S D (w 2 [])).state.analysed = [str "direct", str "pipmod"] ∧
+    (run S D (w 2 [str "pipmod"])).state.analysed = [str "direct"] ∧
+    (run S D (w 2 [str "Pipmod"])).state.analysed = [str "direct", str "pipmod"] := by decide
+
+/-- … and what is recorded: every import with a file, at every level — more than what is read, never
+less (non-vacuity of `deps_covers` with a site-packages module at level 2); an excluded module is
+neither read nor recorded; the pattern is case-sensitive. -/
+example :
+    recorded S D (w 2 []) = [str "/p/direct.py", str "/v/site-packages/pipmod.py", str "/s/smtpd.py"] ∧
+    recorded S D (w 0 []) = recorded S D (w 2 []) ∧
+    readSet S D (w 2 []) = [str "t.py", str "/p/direct.py", str "/v/site-packages/pipmod.py"] ∧
+    recorded S D (w 2 [str "pipmod"]) = [str "/p/direct.py", str "/s/smtpd.py"] ∧
+    recorded S D (w 2 [str "Pipmod"]) = recorded S D (w 2 []) ∧
+    recorded S D (w 2 [str "/v/site-packages/pipmod.py"]) = [str "/p/direct.py", str "/s/smtpd.py"] ∧
+    recorded S D (w 3 [str "smtpd"]) = recorded S D (w 2 []) := by decide
+
+/-- [test] a history at level 2: the site-packages module is edited between two runs sharing the
+cache — noticed. -/
+example :
+    outsG D (depsAnalysis S D (fun w => (readSet S D w).map w.contents) (fun _ => false))
+      { world := w 2 [], disk := .absent }
+      [.runWithCache, .runWithCache, .edit (str "/v/site-packages/pipmod.py") 9, .runWithCache,
+       .runWithCache, .setOptions (argsKey (str "@") ⟨2, [str "Pipmod"], []⟩) 0, .runWithCache,
+       .runWithCache] =
+    [.missWritten, .hit, .noRun, .missWritten, .hit, .noRun, .missWritten, .hit] := by decide
+
+end ExD
 
 end Rattr.C19
